@@ -608,7 +608,13 @@ func c15Anchors(ctx *core.Ctx) {
 		{"file.go", "func getBufioReader(", []string{"pool := getBufioReaderPool(bufferSize)", "rbuf := pool.Get("}, map[string]int{"bufioReaderPool[": 0}},
 		{"schema.go", "func schemaOf(", []string{"cachedSchemas.Load(model)", "NewSchema(model.Name()", "cachedSchemas.LoadOrStore(model, schema)", "schema = actual.(*Schema)"}, nil},
 		{"schema.go", "func (c *cacheMap[K, V]) load(", []string{"oldMap, _ := c.value.Load().(map[K]V)", "newMap := make(map[K]V, len(oldMap)+1)", "maps.Copy(newMap, oldMap)", "newMap[k] = value", "c.value.Store(newMap)"}, map[string]int{"oldMap[k] =": 0}},
-		{"column_buffer_reflect.go", "func writeValueFuncOfGroup(", []string{"structFieldsCache.Load().(map[reflect.Type]map[string][]int)", "cachedFieldsBefore := cachedFields", "cachedFields = make(map[reflect.Type]map[string][]int, len(cachedFieldsBefore)+1)", "maps.Copy(cachedFields, cachedFieldsBefore)", "structFieldsCache.Store(cachedFields)"}, nil},
+		// copy-on-write caches (PqModel.CowCache): load, miss, new table in a new outer map, fill, and only then Store
+		{"column_buffer_reflect.go", "func writeValueFuncOfGroup(", []string{"structFieldsCache.Load().(map[reflect.Type]map[string][]int)", "structFields, ok := cachedFields[t]", "if !ok {", "cachedFieldsBefore := cachedFields", "structFields = make(map[string][]int, len(visibleStructFields))", "cachedFields = make(map[reflect.Type]map[string][]int, len(cachedFieldsBefore)+1)", "cachedFields[t] = structFields", "maps.Copy(cachedFields, cachedFieldsBefore)", "for _, visibleStructField := range visibleStructFields {", "structFields[name] = visibleStructField.Index", "}", "structFieldsCache.Store(cachedFields)", "fieldIndex, ok := structFields[w.fieldName]"},
+			map[string]int{"structFieldsCache.Store(": 1, "structFieldsCache.Load(": 1}},
+		// once-guarded lazy load (PqModel.OnceLoad): guard, loader assigning the captured variables, probe
+		{"bloom.go", "func newBloomFilter(", []string{"case *format.BloomFilterGzip:", "once         sync.Once", "decompressed []byte", "decompErr    error", "lazyCheck := func(", "once.Do(func() {", "file.ReadAt(buf, offset)", "decompressed, decompErr = LookupCompressionCodec(format.Gzip).Decode(nil, buf)", "})", "if decompErr != nil {", "return false, decompErr", "bloom.CheckSplitBlock(bytes.NewReader(decompressed), int64(len(decompressed)), x)"},
+			map[string]int{"once.Do(": 1, "atomic.": 0, "decompressed, decompErr =": 1}},
+		{"schema.go", "func (v *onceValue[T]) load(", []string{"v.once.Do(func() { v.value = f() })", "return v.value"}, nil},
 		// the row group writer protocol (PqModel.RowGroupProto): where awaitOrdinal / rowGroupOrdinal are written and read
 		{"writer.go", "func newConcurrentRowGroupWriter(", []string{"if w.encryption != nil {", "c.awaitOrdinal = true"}, map[string]int{"awaitOrdinal": 1}},
 		{"writer.go", "func (c *ColumnWriter) Flush()", []string{"if c.columnBuffer == nil || c.awaitOrdinal {", "return nil", "if c.columnBuffer.Len() > 0 {"}, nil},
@@ -628,7 +634,13 @@ func c15Anchors(ctx *core.Ctx) {
 		{"writer.go", "func (w *writer) writeRowGroup(", []string{"rowGroupIndex := len(w.rowGroups)", "rg.reset()", "fileOffset := w.writer.offset", "dataPageOffset := w.writer.offset", "c.offsetIndex.PageLocations[j].Offset += dataPageOffset", "io.Copy(&w.writer, c.pageBuffer)"}, nil},
 	}
 	poolNote := func(file string) string {
-		if file == "file.go" || file == "column_buffer_reflect.go" {
+		if file == "column_buffer_reflect.go" {
+			return " — copy-on-write cache: Props.C15.cow_cache_complete needs the new outer map to be stored after the new table has been filled; Props.C15.cow_store_before_fill_incomplete proves that a Store in front of the fill loop lets a second goroutine read the table while it is written and miss fields"
+		}
+		if file == "bloom.go" {
+			return " — once-guarded load: Props.C15.once_load_serial needs late callers to wait for the first caller's load (sync.Once); Props.C15.once_flag_slip_not_serial proves that a guard that lets them through makes them answer from the not yet loaded state"
+		}
+		if file == "file.go" {
 			return " — registry protocol: Props.C15.registry_linearizable needs every map access under the lock; Props.C15.registry_fast_path_conflict proves that an unlocked lookup admits a map read concurrent with a map write"
 		}
 		if file == "column_chunk.go" || file == "row_group.go" || file == "buffer.go" {
@@ -1046,44 +1058,61 @@ func c15BuildRace(limit time.Duration) (string, string, error) {
 }
 
 func RunC15Scenarios(ctx *core.Ctx) {
-	seeds := ctx.Scale(2, 12)
+	seeds := ctx.Scale(2, 8)
 	base := ctx.Seed * 1000
-	// ---- in-process (no race detector): serial output == concurrent output
-	for _, sc := range C15Scenarios {
-		if sc.SubprocessOnly {
-			continue
-		}
-		for s := 0; s < seeds; s++ {
-			if c15Remaining(ctx) < 0 {
-				ctx.Hist("skipped_for_time", "scenario "+sc.Name)
-				ctx.Observe("scenarios-skipped-for-time", "the time budget of the harness was used up (slow machine): some in-process scenario runs were skipped", nil)
-				break
+	// the -race build of cmd/pqrace runs in the background while the in-process runs go on
+	type built struct {
+		bin, out string
+		err      error
+	}
+	buildDone := make(chan built, 1)
+	go func() {
+		bin, out, err := c15BuildRace(max(2*time.Minute, c15Remaining(ctx)-time.Minute))
+		buildDone <- built{bin, out, err}
+	}()
+	// ---- in-process (no race detector): serial output == concurrent output; a few scenarios at a time
+	{
+		var wg sync.WaitGroup
+		sem := make(chan struct{}, 3)
+		for _, sc := range C15Scenarios {
+			if sc.SubprocessOnly {
+				continue
 			}
-			seed := base + int64(s)
-			a, b, err := func() (a, b string, err error) {
-				defer func() {
-					if p := recover(); p != nil {
-						err = fmt.Errorf("panic: %v", p)
+			wg.Add(1)
+			go func(sc c15Scenario) {
+				defer wg.Done()
+				sem <- struct{}{}
+				defer func() { <-sem }()
+				for s := 0; s < seeds; s++ {
+					if c15Remaining(ctx) < 0 {
+						ctx.Hist("skipped_for_time", "scenario "+sc.Name)
+						ctx.Observe("scenarios-skipped-for-time", "the time budget of the harness was used up (slow machine): some in-process scenario runs were skipped", nil)
+						break
 					}
-				}()
-				return C15RunScenario(sc.Name, seed)
-			}()
-			ctx.Case("scenario "+sc.Name+" "+fmt.Sprint(seed), true)
-			ctx.Hist("scenario", sc.Name)
-			if err != nil {
-				ctx.Fail("L1", c15ScenarioKey(sc.Name, err.Error()), sc.Doc+": "+err.Error(),
-					map[string]any{"scenario": sc.Name, "seed": seed, "serial": a, "concurrent": b,
-						"replay": fmt.Sprintf(".build/pqrace -scenario %s -seed %d", sc.Name, seed)})
-			}
+					seed := base + int64(s)
+					a, b, err := func() (a, b string, err error) {
+						defer func() {
+							if p := recover(); p != nil {
+								err = fmt.Errorf("panic: %v", p)
+							}
+						}()
+						return C15RunScenario(sc.Name, seed)
+					}()
+					ctx.Case("scenario "+sc.Name+" "+fmt.Sprint(seed), true)
+					ctx.Hist("scenario", sc.Name)
+					if err != nil {
+						ctx.Fail("L1", c15ScenarioKey(sc.Name, err.Error()), sc.Doc+": "+err.Error(),
+							map[string]any{"scenario": sc.Name, "seed": seed, "serial": a, "concurrent": b,
+								"replay": fmt.Sprintf(".build/pqrace -scenario %s -seed %d", sc.Name, seed)})
+					}
+				}
+			}(sc)
 		}
+		wg.Wait()
 	}
 	// ---- the same scenarios in a -race build, as subprocesses
-	if c15Remaining(ctx) < 2*time.Minute {
-		ctx.Hist("race_build", "skipped-for-time")
-		ctx.Observe("race-build-timeout", "no time left for the -race build (slow machine): the scenarios ran without the race detector only", nil)
-		return
-	}
-	bin, out, err := c15BuildRace(c15Remaining(ctx) - time.Minute)
+	bt := <-buildDone
+	bin, out, err := bt.bin, bt.out, bt.err
 	if errors.Is(err, context.DeadlineExceeded) {
 		// a slow machine is not a finding: the race half of the sub-check did not run
 		ctx.Hist("race_build", "timeout")
@@ -1097,11 +1126,20 @@ func RunC15Scenarios(ctx *core.Ctx) {
 	ctx.Hist("race_build", "ok")
 	timeout := time.Duration(ctx.Scale(420, 900)) * time.Second // expiry is never a verdict (see c15RaceRun)
 	var wg sync.WaitGroup
-	sem := make(chan struct{}, max(2, runtime.NumCPU()/4))
+	sem := make(chan struct{}, max(2, runtime.NumCPU()/2))
+	// the seeds are split between the two GOMAXPROCS settings (0 = all processors, 2)
+	half := (seeds + 1) / 2
 	for _, sc := range C15Scenarios {
-		for _, procs := range []int{0, 2} {
+		for k, procs := range []int{0, 2} {
+			first, n := base, half
+			if k == 1 {
+				first, n = base+int64(half), seeds-half
+			}
+			if n <= 0 {
+				continue
+			}
 			wg.Add(1)
-			go func(name, doc string, procs int) {
+			go func(name, doc string, procs int, first int64, n int) {
 				defer wg.Done()
 				sem <- struct{}{}
 				defer func() { <-sem }()
@@ -1111,8 +1149,8 @@ func RunC15Scenarios(ctx *core.Ctx) {
 					ctx.Observe("race-run-skipped-for-time", "the time budget of the harness was used up (slow machine): some -race scenario runs were not started", nil)
 					return
 				}
-				c15RaceRun(ctx, bin, name, doc, base, seeds, procs, min(timeout, left))
-			}(sc.Name, sc.Doc, procs)
+				c15RaceRun(ctx, bin, name, doc, first, n, procs, min(timeout, left))
+			}(sc.Name, sc.Doc, procs, first, n)
 		}
 	}
 	wg.Wait()
